@@ -20,19 +20,40 @@ MULTI_ATTRS = {'description', 'deprecated_reason'}
 
 # ---------------------------------------------------------------- sanitizer
 def check_sanitizer(ctx):
+    """The help-text formatter returns only #-prefixed lines: read off its
+    paths (module helpers and nested functions inlined, constants
+    propagated)."""
+    from ..dte import inline_helpers
+    from ..pathutil import deref, elem_source
     prog = ctx.prog
     f = prog.func(GEN + '._format_help_text')
-    W = lambda n: ctx.where(f.module, n)
-    param = f.params[0]
-    nested = {n.name: n for n in f.node.body
-              if isinstance(n, ast.FunctionDef)}
+    F = ctx.where(f.module, f.node).split(':')[0]
+    t = Table(prog, f, inline=inline_helpers(prog, modules={GEN},
+                                             classes=False),
+              closures=True, handler_paths=False, max_depth=4)
+    en = t.en
     ok_all = True
+    seen = set()
+    shapes = set()
+    sites = set()
+
+    def ob(ok, line, construct, detail):
+        nonlocal ok_all
+        k = (line, ok, construct)
+        if k in seen:
+            return
+        seen.add(k)
+        ok_all = ok_all and ok
+        ctx.ob('C17.SANITIZER', ok, '%s:%d' % (F, line), f.qual, construct,
+               detail)
 
     def wrap_ok(call):
         """textwrap.wrap(..., initial_indent='#..', subsequent_indent='#..')"""
+        call = en.expand(call)
         if not (isinstance(call, ast.Call) and prog.resolve(
                 f.module, call.func) == 'ext:textwrap.wrap'):
-            return False, 'not a textwrap.wrap call'
+            return False, 'extended by something other than wrapped ' \
+                '#-indented lines'
         ii = kwarg(call, 'initial_indent')
         si = kwarg(call, 'subsequent_indent')
         if not (is_const(ii) and isinstance(ii.value, str)
@@ -45,139 +66,128 @@ def check_sanitizer(ctx):
                 'comments)'
         return True, 'wrapped with #-indents'
 
-    # the line loop: for line in <param>....splitlines()
-    line_vars = set()
-    for n in walk_no_nested(f.node):
-        if isinstance(n, ast.For) and isinstance(n.iter, ast.Call) and \
-                method_call(n.iter, 'splitlines') and isinstance(
-                    n.target, ast.Name):
-            line_vars.add(n.target.id)
-    # the accumulated list: the one joined in the return
-    rets = returns_of(f.node)
-    acc = None
-    n_ret = 0
-    shapes = set()
-    for r in rets:
-        n_ret += 1
-        v = r.value
-        # a trailing newline may be appended to either kind of return
+    def is_line(node):
+        """an element of <text>.splitlines(), possibly stripped"""
+        src = node
+        while isinstance(src, ast.Call) and method_call(src) and \
+                method_call(src)[1] in ('rstrip', 'strip', 'lstrip',
+                                        'expandtabs'):
+            src = method_call(src)[0]
+        it = elem_source(en, src) if isinstance(src, ast.Name) else None
+        it = en.expand(it) if it is not None else None
+        return isinstance(it, ast.Call) and bool(method_call(it,
+                                                             'splitlines'))
+
+    def expand_keep_elems(e):
+        return en.expand(e)
+
+    for p in t.paths:
+        line = p.outcome.line
+        if p.outcome.kind == 'raise':
+            continue
+        if p.outcome.kind != 'return' or p.outcome.expr is None:
+            ob(False, line, 'falls off the end',
+               'the help-text formatter can return None')
+            continue
+        v = deref(en, p.outcome.expr)
         trailing = False
         if isinstance(v, ast.BinOp) and isinstance(v.op, ast.Add) and \
-                is_const(v.right, '\n'):
-            v = v.left
+                is_const(deref(en, v.right), '\n'):
+            v = deref(en, v.left)
             trailing = True
-        if is_const(v) and isinstance(v.value, str) and v.value.endswith(
-                '\n') and '\n' not in v.value[:-1]:
-            v = ast.copy_location(ast.Constant(value=v.value[:-1]), v)
-            trailing = True
-        this_shape = [trailing]
+        acc = None
         if is_const(v) and isinstance(v.value, str):
-            ok = v.value.startswith('#') and '\n' not in v.value
-            ctx.ob('C17.SANITIZER', ok, W(r), f.qual, 'return ' + U(v),
-                   'a bare comment marker' if ok else
-                   'the help-text formatter can return %r, which is not a '
-                   'comment' % v.value)
-            ok_all = ok_all and ok
+            txt = v.value
+            if txt.endswith('\n') and '\n' not in txt[:-1]:
+                txt = txt[:-1]
+                trailing = True
+            ok = txt.startswith('#') and '\n' not in txt
+            ob(ok, line, 'return %r' % v.value, 'a bare comment marker'
+               if ok else 'the help-text formatter can return %r, which is '
+               'not a comment' % v.value)
         elif isinstance(v, ast.Call) and method_call(v, 'join') and \
-                is_const(method_call(v)[0], '') and len(v.args) == 1 and \
-                isinstance(v.args[0], (ast.GeneratorExp, ast.ListComp)) \
-                and len(v.args[0].generators) == 1 and not \
-                v.args[0].generators[0].ifs and isinstance(
-                    v.args[0].generators[0].iter, ast.Name) and isinstance(
-                        v.args[0].elt, ast.BinOp) and isinstance(
-                            v.args[0].elt.op, ast.Add) and U(
-                                v.args[0].elt.left) == U(
-                                    v.args[0].generators[0].target) and \
-                is_const(v.args[0].elt.right, '\n'):
-            # ''.join(line + '\n' for line in lines): newline terminated
-            acc = v.args[0].generators[0].iter.id
-            this_shape[0] = True
-            ctx.ob('C17.SANITIZER', True, W(r), f.qual, 'return ' + U(v),
-                   'every collected line followed by a newline')
-        elif isinstance(v, ast.Call) and method_call(v, 'join') and \
-                is_const(method_call(v)[0], '\n') and len(v.args) == 1 and \
-                isinstance(v.args[0], ast.Name):
-            acc = v.args[0].id
-            ctx.ob('C17.SANITIZER', True, W(r), f.qual, 'return ' + U(v),
+                len(v.args) == 1:
+            sep = deref(en, method_call(v)[0])
+            a0 = v.args[0]
+            if is_const(sep, '\n') and isinstance(a0, ast.Name) and \
+                    a0.id.startswith('SYM_m'):
+                acc = a0.id
+                ob(True, line, 'return ' + U(en.expand(v))[:60],
                    'lines joined by a single newline, no trailing newline')
-        else:
-            ctx.ob('C17.SANITIZER', False, W(r), f.qual, 'return ' + U(v),
-                   'the help-text formatter returns something that is not a '
-                   "'#' constant or a newline-join of collected lines")
-            ok_all = False
-        shapes.add(this_shape[0])
-    if acc is None:
-        raise AnalysisError('help-text formatter has no joined accumulator')
-    # every element that enters the accumulator
-    n_el = 0
-    for n in walk_no_nested(f.node):
-        if isinstance(n, ast.Assign) and U(n.targets[0]) == acc:
-            ok = isinstance(n.value, ast.List) and not n.value.elts
-            ctx.ob('C17.SANITIZER', ok, W(n), f.qual, U(n),
-                   'starts empty' if ok else 'the collected lines do not '
-                   'start from an empty list')
-            ok_all = ok_all and ok
-        if not isinstance(n, ast.Call):
+            elif is_const(sep, '') and isinstance(
+                    a0, (ast.GeneratorExp, ast.ListComp)) and len(
+                        a0.generators) == 1 and not a0.generators[0].ifs \
+                    and isinstance(a0.generators[0].iter, ast.Name) and \
+                    a0.generators[0].iter.id.startswith('SYM_m') and \
+                    isinstance(a0.elt, ast.BinOp) and isinstance(
+                        a0.elt.op, ast.Add) and U(a0.elt.left) == U(
+                            a0.generators[0].target) and is_const(
+                                a0.elt.right, '\n'):
+                acc = a0.generators[0].iter.id
+                trailing = True
+                ob(True, line, 'return ' + U(en.expand(v))[:60],
+                   'every collected line followed by a newline')
+        if acc is None and not (is_const(v) and isinstance(v.value, str)):
+            ob(False, line, 'return ' + U(en.expand(v))[:60],
+               'the help-text formatter returns something that is not a '
+               "'#' constant or a newline-join of collected lines")
             continue
-        mc = method_call(n)
-        if not mc or U(mc[0]) != acc:
+        shapes.add(trailing)
+        if acc is None:
             continue
-        if mc[1] == 'append' and len(n.args) == 1:
-            n_el += 1
-            a = n.args[0]
-            try:
-                segs = merge(segments(a))
-            except Unknown as e:
-                segs = None
-            ok = False
-            detail = 'appended line is not a #-prefixed single line'
-            if segs and isinstance(segs[0], Lit) and segs[0].text.startswith(
-                    '#') and not any(isinstance(s, Lit) and '\n' in s.text
-                                     for s in segs):
-                ok = True
-                detail = 'a #-prefixed line'
-                for s in segs[1:]:
-                    if isinstance(s, Hole):
-                        src = s.node
-                        while isinstance(src, ast.Call) and method_call(
-                                src) and method_call(src)[1] in (
-                                    'rstrip', 'strip', 'lstrip',
-                                    'expandtabs'):
-                            src = method_call(src)[0]
-                        if not (isinstance(src, ast.Name)
-                                and src.id in line_vars):
+        d = en.defs.get(acc)
+        ok = isinstance(d, ast.List) and not d.elts
+        ob(ok, line, 'collected lines start as %s' % (
+            U(d) if isinstance(d, ast.AST) else '?'), 'starts empty' if ok
+           else 'the collected lines do not start from an empty list')
+        for ev in p.events:
+            if ev.kind in ('store', 'aug', 'del') and any(
+                    isinstance(n, ast.Name) and n.id == acc
+                    for n in ast.walk(ev.node)):
+                ob(False, ev.line, ev.text()[:80],
+                   'unrecognised way of adding a line')
+                continue
+            if ev.kind != 'call':
+                continue
+            mc = method_call(ev.node)
+            if not mc or U(mc[0]) != acc:
+                continue
+            if mc[1] == 'append' and len(ev.node.args) == 1:
+                sites.add(ev.line)
+                a = en.expand(ev.node.args[0])
+                try:
+                    segs = merge(segments(a))
+                except Unknown:
+                    segs = None
+                ok = False
+                detail = 'appended line is not a #-prefixed single line'
+                if segs and isinstance(segs[0], Lit) and \
+                        segs[0].text.startswith('#') and not any(
+                            isinstance(x, Lit) and '\n' in x.text
+                            for x in segs):
+                    ok = True
+                    detail = 'a #-prefixed line'
+                    for x in segs[1:]:
+                        if isinstance(x, Hole):
+                            if not is_line(x.node):
+                                ok = False
+                                detail = 'the appended line embeds %s, ' \
+                                    'which is not a single line taken ' \
+                                    'from splitlines()' % x.source
+                        elif isinstance(x, Join):
                             ok = False
-                            detail = 'the appended line embeds %s, which ' \
-                                     'is not a single line taken from ' \
-                                     'splitlines()' % s.source
-                    elif isinstance(s, Join):
-                        ok = False
-            ctx.ob('C17.SANITIZER', ok, W(n), f.qual, U(n)[:80], detail)
-            ok_all = ok_all and ok
-        elif mc[1] == 'extend' and len(n.args) == 1:
-            n_el += 1
-            a = n.args[0]
-            ok, detail = False, 'extended by something other than ' \
-                'wrapped #-indented lines'
-            if isinstance(a, ast.Call) and isinstance(a.func, ast.Name) and \
-                    a.func.id in nested:
-                rr = returns_of(nested[a.func.id])
-                if len(rr) == 1:
-                    ok, detail = wrap_ok(rr[0].value)
-            else:
-                ok, detail = wrap_ok(a)
-            ctx.ob('C17.SANITIZER', ok, W(n), f.qual, U(n)[:80], detail)
-            ok_all = ok_all and ok
-        elif mc[1] in ('insert', '__setitem__', '__iadd__'):
-            ctx.ob('C17.SANITIZER', False, W(n), f.qual, U(n)[:80],
+                ob(ok, ev.line, U(ev.node)[:80], detail)
+            elif mc[1] == 'extend' and len(ev.node.args) == 1:
+                sites.add(ev.line)
+                ok, detail = wrap_ok(ev.node.args[0])
+                ob(ok, ev.line, U(en.expand(ev.node))[:80], detail)
+            elif mc[1] in ('insert', '__setitem__', '__iadd__', 'remove',
+                           'pop', 'clear', 'sort', 'reverse'):
+                ob(False, ev.line, U(ev.node)[:80],
                    'unrecognised way of adding a line')
-            ok_all = False
-    for n in walk_no_nested(f.node):
-        if isinstance(n, ast.AugAssign) and U(n.target) == acc:
-            ctx.ob('C17.SANITIZER', False, W(n), f.qual, U(n)[:80],
-                   'unrecognised way of adding a line')
-            ok_all = False
-    ctx.floor('C17.SANITIZER', n_el, 3, 'line insertions')
+    ctx.count(len(t.paths))
+    if ok_all:
+        ctx.floor('C17.SANITIZER', len(sites), 2, 'line insertions')
     f.sanitized_shapes = shapes or {False}
     return f, ok_all
 
@@ -243,7 +253,18 @@ def check_consts(ctx):
 
 # --------------------------------------------------------------------- lines
 def classify_source(expr_text, node):
-    attrs = {n.attr for n in ast.walk(node) if isinstance(n, ast.Attribute)}
+    if isinstance(node, ast.Call) and U(node.func).endswith(
+            ('jsonutils.dumps', 'json.dumps')) and not any(
+                k.arg == 'indent' for k in node.keywords):
+        # a JSON scalar / flow sequence never contains a raw line break
+        return 'SINGLE-LINE'
+    callee_parts = set()
+    for n in ast.walk(node):
+        if isinstance(n, ast.Call):
+            callee_parts |= {id(x) for x in ast.walk(n.func)
+                             if isinstance(x, ast.Attribute)}
+    attrs = {n.attr for n in ast.walk(node) if isinstance(n, ast.Attribute)
+             and id(n) not in callee_parts}
     keys = {n.slice.value for n in ast.walk(node)
             if isinstance(n, ast.Subscript) and isinstance(
                 n.slice, ast.Constant) and isinstance(n.slice.value, str)}
@@ -255,75 +276,148 @@ def classify_source(expr_text, node):
     return 'UNKNOWN'
 
 
-def analyse_lines(segs, nl=False):
-    """Returns list of problems [(kind, text)] for an abstract output.
-    nl: the comment formatter's result ends with a newline."""
-    problems = []
-    line_start = True
-    commented = False
-    cur = ''
-    rule_lines = 0
+class LineMachine:
+    """Splits an abstract output (literal / hole / join segments) into lines
+    and collects what is wrong with them."""
 
-    def lit(text):
-        nonlocal line_start, commented, cur
+    def __init__(self, nl):
+        self.nl = nl                 # the comment formatter ends with \n
+        self.problems = []
+        self.line_start = True
+        self.commented = False
+        self.rule_lines = []         # segments of each `#"` line
+        self.cur_rule = None
+
+    def state(self):
+        return (self.line_start, self.commented)
+
+    def _rule_add(self, seg):
+        if self.cur_rule is not None:
+            self.cur_rule.append(seg)
+
+    def lit(self, text):
         parts = text.split('\n')
         for i, part in enumerate(parts):
             if part:
-                if part.startswith('#"'):
-                    nonlocal rule_lines
-                    rule_lines += 1
-                    if not line_start:
-                        problems.append(('rule-line-not-at-line-start',
-                                         part[:40]))
-                if line_start:
-                    commented = part.startswith('#')
-                    if not commented:
-                        problems.append(('uncommented-line', part[:60]))
-                    line_start = False
-                cur += part
+                if part.startswith('#"') and (self.line_start
+                                              or self.cur_rule is None):
+                    if not self.line_start:
+                        self.problems.append(
+                            ('rule-line-not-at-line-start', part[:40]))
+                    self.cur_rule = []
+                    self.rule_lines.append(self.cur_rule)
+                if self.line_start:
+                    self.commented = part.startswith('#')
+                    if not self.commented:
+                        self.problems.append(('uncommented-line', part[:60]))
+                    self.line_start = False
+                self._rule_add(Lit(part))
             if i < len(parts) - 1:
-                line_start = True
-                commented = False
-                cur = ''
-    for s in segs:
-        if isinstance(s, Lit):
-            lit(s.text)
-        elif isinstance(s, Hole):
-            if s.cls == 'SANITIZED':
-                if not line_start and not commented:
-                    problems.append(('sanitized-in-uncommented-line',
-                                     s.source))
-                if nl:
-                    line_start, commented = True, False
+                self._rule_add(Lit('\n'))
+                self.cur_rule = None
+                self.line_start = True
+                self.commented = False
+
+    def feed(self, segs):
+        for s in segs:
+            if isinstance(s, Lit):
+                self.lit(s.text)
+            elif isinstance(s, Hole):
+                if s.cls == 'SANITIZED':
+                    if not self.line_start and not self.commented:
+                        self.problems.append(
+                            ('sanitized-in-uncommented-line', s.source))
+                    if self.nl:
+                        self.line_start, self.commented = True, False
+                        self.cur_rule = None
+                    else:
+                        self.commented = True
+                        self.line_start = False
+                elif s.cls == 'SINGLE-LINE':
+                    if self.line_start or not self.commented:
+                        self.problems.append(('raw-value-outside-comment',
+                                              s.source))
+                    self.line_start = False
+                    self._rule_add(s)
                 else:
-                    commented = True
-                    line_start = False
-            elif s.cls == 'SINGLE-LINE':
-                if line_start or not commented:
-                    problems.append(('raw-value-outside-comment', s.source))
-                line_start = False
-            else:
-                problems.append(('multi-line-source-unsanitized', s.source))
-                line_start = False
-        elif isinstance(s, Join):
-            seps = ''.join(x.text for x in s.sep if isinstance(x, Lit))
-            if '\n' in seps:
-                problems.append(('join-with-newline', s.iter_text))
-            if line_start or not commented:
-                problems.append(('raw-value-outside-comment', s.iter_text))
-            line_start = False
-    if rule_lines != 1:
-        problems.append(('rule-line-count', '%d lines start with #"'
-                         % rule_lines))
-    return problems
+                    self.problems.append(('multi-line-source-unsanitized',
+                                          s.source))
+                    self.line_start = False
+                    self._rule_add(s)
+            elif isinstance(s, Join):
+                seps = ''.join(x.text for x in s.sep if isinstance(x, Lit))
+                if s.elem is not None and any(
+                        isinstance(x, Lit) and '\n' in x.text
+                        for x in s.elem):
+                    # a block of whole lines repeated zero or more times:
+                    # run it twice (separator in between); it must hand the
+                    # line state back as it found it
+                    before = self.state()
+                    for _ in range(2):
+                        self.feed(s.elem)
+                        if seps:
+                            self.lit(seps)
+                    if self.state() != before:
+                        self.problems.append(('join-breaks-lines',
+                                              s.iter_text))
+                    continue
+                if '\n' in seps:
+                    self.problems.append(('join-with-newline', s.iter_text))
+                if self.line_start or not self.commented:
+                    self.problems.append(('raw-value-outside-comment',
+                                          s.iter_text))
+                self.line_start = False
+                self._rule_add(s)
+
+
+def analyse_lines(segs, nl=False):
+    """Returns (problems [(kind, text)], rule lines) for an abstract output.
+    nl: the comment formatter's result ends with a newline."""
+    m = LineMachine(nl)
+    m.feed(segs)
+    if len(m.rule_lines) != 1:
+        m.problems.append(('rule-line-count', '%d lines start with #"'
+                           % len(m.rule_lines)))
+    return m.problems, m.rule_lines
+
+
+def rule_line_ok(prog, module, line):
+    """`#"` name `": ` <JSON scalar of check_str> newline  (or the quoted
+    form `": "` check_str `"`)."""
+    shape = [(type(x).__name__, getattr(x, 'text', None)
+              or getattr(x, 'source', None)) for x in merge(line)]
+    if shape == [('Lit', '#"'), ('Hole', 'default.name'), ('Lit', '": "'),
+                 ('Hole', 'default.check_str'), ('Lit', '"'), ('Lit', '\n')] \
+            or shape == [('Lit', '#"'), ('Hole', 'default.name'),
+                         ('Lit', '": "'), ('Hole', 'default.check_str'),
+                         ('Lit', '"\n')]:
+        return True, ''
+    segs = merge(line)
+    if len(segs) == 5 and shape[:3] == [('Lit', '#"'),
+                                        ('Hole', 'default.name'),
+                                        ('Lit', '": ')] and \
+            shape[4] == ('Lit', '\n') and isinstance(segs[3], Hole):
+        h = segs[3].node
+        if isinstance(h, ast.Call) and (prog.resolve(module, h.func) or ''
+                                        ).endswith(('jsonutils.dumps',
+                                                    'json.dumps')) and \
+                len(h.args) == 1 and U(h.args[0]) == 'default.check_str' \
+                and not any(k.arg == 'indent' for k in h.keywords):
+            return True, ''
+    return False, ''.join(
+        x.text if isinstance(x, Lit) else '<%s>' % getattr(x, 'source', '?')
+        for x in merge(line))[:120]
 
 
 def check_lines(ctx, fmt, sanitizer, sanitizer_ok):
+    from ..dte import inline_helpers
     prog = ctx.prog
     true = ast.Constant(value=True)
     en = Enumerator(prog, fmt, env0={'include_help': true,
                                      'comment_rule': true},
-                    handler_paths=False)
+                    inline=inline_helpers(prog, modules={GEN}, classes=False,
+                                          exclude={sanitizer.qual}),
+                    handler_paths=False, max_depth=4)
     paths = en.run()
     F = ctx.where(fmt.module, fmt.node).split(':')[0]
 
@@ -331,19 +425,20 @@ def check_lines(ctx, fmt, sanitizer, sanitizer_ok):
         if isinstance(e, ast.Name) and e.id in en.defs and isinstance(
                 en.defs[e.id], ast.AST):
             return segments(en.defs[e.id], hook)
-        if isinstance(e, ast.Call) and prog.callee_of(fmt, e) is sanitizer:
+        if isinstance(e, ast.Call) and prog.resolve(
+                fmt.module, e.func) == sanitizer.qual:
             return [Hole('_format_help_text(%s)' % U(e.args[0])[:40],
                          'SANITIZED' if sanitizer_ok else 'MULTI-LINE', e)]
         if isinstance(e, ast.BoolOp):
             return [Hole(U(e), classify_source(U(e), e), e)]
         if isinstance(e, (ast.Attribute, ast.Subscript)):
-            x = e
             ex = en.expand(e)
             return [Hole(U(ex), classify_source(U(ex), ex), ex)]
         return None
     shapes = {}
     bad = {}
-    n = 0
+    bad_rule = None
+    n = n_rule = 0
     for p in paths:
         if p.outcome.kind != 'return' or p.outcome.expr is None:
             continue
@@ -353,15 +448,28 @@ def check_lines(ctx, fmt, sanitizer, sanitizer_ok):
         except Unknown as e:
             raise AnalysisError('output of the YAML formatter not '
                                 'recognised: %s' % e)
-        for s in segs:
-            if isinstance(s, Hole) and s.cls is None:
-                s.cls = classify_source(s.source, s.node) if s.node \
-                    is not None else 'UNKNOWN'
+
+        def classify_all(sg):
+            for x in sg:
+                if isinstance(x, Hole) and x.cls is None:
+                    x.cls = classify_source(x.source, x.node) if x.node \
+                        is not None else 'UNKNOWN'
+                elif isinstance(x, Join):
+                    classify_all(x.sep)
+                    if x.elem is not None:
+                        classify_all(x.elem)
+        classify_all(segs)
         shape = shape_text(segs)
         shapes[shape] = shapes.get(shape, 0) + 1
         for nlv in sorted(getattr(sanitizer, 'sanitized_shapes', {False})):
-            for kind, what in analyse_lines(segs, nlv):
+            problems, rule_lines = analyse_lines(segs, nlv)
+            for kind, what in problems:
                 bad.setdefault((kind, what), (p, shape))
+            for rl in rule_lines:
+                n_rule += 1
+                ok, got = rule_line_ok(prog, fmt.module, rl)
+                if not ok and bad_rule is None:
+                    bad_rule = (p, got)
     ctx.count(n, [('C17.LINES', s) for s in list(shapes)[:64]])
     ctx.extra['formatter_paths'] = n
     ctx.extra['distinct_output_shapes'] = len(shapes)
@@ -378,6 +486,8 @@ def check_lines(ctx, fmt, sanitizer, sanitizer_ok):
             'continues a line that is not a comment' % what,
             'join-with-newline': 'values of %s are joined with line breaks'
             % what,
+            'join-breaks-lines': 'the lines generated per element of %s do '
+            'not begin and end on line boundaries' % what,
             'rule-line-not-at-line-start': 'the rule line `%s...` does not '
             'start on a line of its own (it is glued to the comment before '
             'it): uncommenting it does not state the default' % what,
@@ -392,74 +502,32 @@ def check_lines(ctx, fmt, sanitizer, sanitizer_ok):
                'every line of every possible sample section starts with # '
                '(or is empty); free text occurs only through the comment '
                'formatter; names and check strings only on comment lines')
-    for s in list(shapes)[:6]:
-        ctx.sample('shape: ' + s[:300].replace('\n', '\\n'))
+    ok_rule = bad_rule is None and n_rule > 0
+    ctx.ob('C17.RULE-LINE', ok_rule, '%s:%d' % (
+        F, bad_rule[0].outcome.line) if bad_rule else ctx.where(
+            fmt.module, fmt.node), fmt.qual,
+        'commented rule line (%d occurrences)' % n_rule,
+        'maps the policy name to its default check string' if ok_rule else
+        'the rule line is not `"name": "check_str"` of the default (shape '
+        '%s)' % (bad_rule[1] if bad_rule else 'no rule line found'))
+    for sh in list(shapes)[:6]:
+        ctx.sample('shape: ' + sh[:300].replace('\n', '\\n'))
     ctx.floor('C17.LINES', n, 8, 'formatter paths')
     return en, paths
-
-
-def check_rule_line(ctx, fmt):
-    prog = ctx.prog
-    # the first assignment of the text: "name": "check_str"\n
-    first = None
-    for n in fmt.node.body:
-        if isinstance(n, ast.Assign):
-            first = n
-            break
-    ok = False
-    detail = 'the rule line is not `"name": "check_str"` of the default'
-    if first is not None:
-        try:
-            segs = merge(segments(first.value))
-            shape = [(type(s).__name__, getattr(s, 'text', None)
-                      or getattr(s, 'source', None)) for s in segs]
-            ok = shape == [('Lit', '"'), ('Hole', 'default.name'),
-                           ('Lit', '": "'), ('Hole', 'default.check_str'),
-                           ('Lit', '"\n')]
-            if not ok and len(segs) == 5 and shape[:3] == [
-                    ('Lit', '"'), ('Hole', 'default.name'),
-                    ('Lit', '": ')] and shape[4] == ('Lit', '\n'):
-                # the value written as a JSON scalar of default.check_str
-                h = segs[3].node
-                g = prog.callee_of(fmt, h) if isinstance(h, ast.Call) \
-                    else None
-                inner = h
-                if g is not None:
-                    rr = returns_of(g.node)
-                    if len(rr) == 1 and isinstance(rr[0].value, ast.Call) \
-                            and len(h.args) == 1 and rr[0].value.args and U(
-                                rr[0].value.args[0]) == g.params[0]:
-                        inner = ast.Call(func=rr[0].value.func,
-                                         args=[h.args[0]],
-                                         keywords=rr[0].value.keywords)
-                        inner_mod = g.module
-                if isinstance(inner, ast.Call) and (prog.resolve(
-                        fmt.module, inner.func) or '').endswith(
-                            ('jsonutils.dumps', 'json.dumps')) and len(
-                                inner.args) == 1 and U(
-                                    inner.args[0]) == 'default.check_str' \
-                        and not any(k.arg == 'indent'
-                                    for k in inner.keywords):
-                    ok = True
-            if ok:
-                detail = 'maps the policy name to its default check string'
-            else:
-                detail += ' (shape %s)' % shape_text(segs)
-        except Unknown:
-            pass
-    ctx.ob('C17.RULE-LINE', ok, ctx.where(fmt.module, first or fmt.node),
-           fmt.qual, U(first)[:90] if first is not None else 'rule line',
-           detail)
 
 
 def check_json(ctx):
     prog = ctx.prog
     fj = prog.func(GEN + '._format_rule_default_json')
-    rets = returns_of(fj.node)
+    from ..dte import inline_helpers as _ih
+    tj = Table(prog, fj, inline=_ih(prog, modules={GEN}, classes=False),
+               handler_paths=False)
+    rets = [p for p in tj.paths if p.outcome.kind == 'return'
+            and p.outcome.expr is not None]
     ok = False
-    if len(rets) == 1:
+    if len(rets) == 1 and len(tj.paths) == 1:
         try:
-            segs = merge(segments(rets[0].value))
+            segs = merge(segments(tj.expand(rets[0].outcome.expr)))
             shape = [(type(s).__name__, getattr(s, 'text', None)
                       or getattr(s, 'source', None)) for s in segs]
             ok = shape == [('Lit', '"'), ('Hole', 'default.name'),
@@ -471,16 +539,40 @@ def check_json(ctx):
            'JSON member', 'a member `"name": "check_str"`' if ok else
            'the JSON member is not `"name": "check_str"` of the default')
     inner = prog.func(GEN + '._generate_sample')
+    from ..dte import inline_helpers
+    sec = prog.func(GEN + '._sort_and_format_by_section')
+    ti = Table(prog, inner, inline=inline_helpers(
+        prog, modules={GEN}, classes=False, exclude={sec.qual}),
+        max_depth=4)
     okw = False
-    for c in ast.walk(inner.node):
-        if isinstance(c, ast.Call) and method_call(c, 'writelines') and \
-                c.args and isinstance(c.args[0], ast.Tuple):
-            el = c.args[0].elts
-            if len(el) == 3 and is_const(el[0]) and is_const(el[2]) and \
-                    el[0].value.strip() == '{' and el[2].value.strip() == \
-                    '}' and isinstance(el[1], ast.Call) and method_call(
-                        el[1], 'join') and is_const(method_call(el[1])[0]) \
-                    and method_call(el[1])[0].value.strip() == ',':
+    for p in ti.paths:
+        is_json = any(c.kind == 'test' and c.pol and isinstance(
+            c.expr, ast.Compare) and 'output_format' in U(c.expr)
+            and "'json'" in U(c.expr) for c in p.conds)
+        if not is_json:
+            continue
+        for ev in p.events:
+            if ev.kind != 'call' or not method_call(ev.node, 'writelines') \
+                    or not ev.node.args:
+                continue
+            a = ti.expand(ev.node.args[0])
+            if not (isinstance(a, (ast.Tuple, ast.List)) and len(
+                    a.elts) == 3):
+                continue
+            try:
+                s0 = merge(segments(a.elts[0]))
+                s1 = merge(segments(a.elts[1]))
+                s2 = merge(segments(a.elts[2]))
+            except Unknown:
+                continue
+            txt = lambda sg: ''.join(x.text for x in sg
+                                     if isinstance(x, Lit))
+            if all(isinstance(x, Lit) for x in s0 + s2) and \
+                    txt(s0).strip() == '{' and txt(s2).strip() == '}' and \
+                    len(s1) == 1 and isinstance(s1[0], Join) and \
+                    s1[0].elem is None and all(
+                        isinstance(x, Lit) for x in s1[0].sep) and \
+                    txt(s1[0].sep).strip() == ',':
                 okw = True
     ctx.ob('C17.JSON', okw, ctx.where(inner.module, inner.node), inner.qual,
            'JSON document', 'members joined by commas inside one object'
@@ -546,24 +638,43 @@ def check_every(ctx):
                bad[0].cond_text()[-250:] if bad else 'no element path'))
     # the sample writer emits every section it is given
     inner = prog.func(GEN + '._generate_sample')
-    ti = Table(prog, inner)
+    from ..dte import inline_helpers
+    ti = Table(prog, inner, inline=inline_helpers(
+        prog, modules={GEN}, classes=False, exclude={sec.qual}),
+        max_depth=4)
     okw = False
+    filtered = False
     for p in ti.paths:
-        loops = [c for c in p.conds if c.kind == 'loop' and c.pol]
+        # (a) list(<section generator>) is written as it is
+        for ev in p.events:
+            if ev.kind == 'call' and method_call(ev.node, 'writelines') and \
+                    ev.node.args:
+                for x in ast.walk(ti.expand(ev.node.args[0])):
+                    if isinstance(x, ast.Call) and U(x.func) in (
+                            'list', 'tuple') and x.args and isinstance(
+                                x.args[0], ast.Call) and prog.resolve(
+                                    inner.module, x.args[0].func) == sec.qual:
+                        okw = True
+        # (b) every element of the section generator is appended
+        loops = [c for c in p.conds if c.kind == 'loop' and c.pol
+                 and isinstance(ti.expand(c.expr), ast.Call)
+                 and prog.resolve(inner.module,
+                                  ti.expand(c.expr).func) == sec.qual]
         if not loops:
             continue
+        elems = [sym for sym, d in ti.en.defs.items() if isinstance(d, tuple)
+                 and d and d[0] == 'elem' and d[1] is loops[0].expr]
         app = any(e.kind == 'call' and method_call(e.node, 'append')
                   and isinstance(e.node.args[0], ast.Name)
-                  and e.node.args[0].id.startswith('SYM_e')
-                  and e.nconds <= len(loops) + 3 for e in p.events)
+                  and e.node.args[0].id in elems for e in p.events)
         conds_in_loop = [c for c in p.conds if c.kind == 'test' and any(
-            isinstance(x, ast.Name) and x.id.startswith('SYM_e')
+            isinstance(x, ast.Name) and x.id in elems
             for x in ast.walk(c.expr))]
         if app and not conds_in_loop:
             okw = True
-        if conds_in_loop:
-            okw = False
-            break
+        if conds_in_loop or not app:
+            filtered = True
+    okw = okw and not filtered
     ctx.ob('C17.EVERY', okw, ctx.where(inner.module, inner.node),
            inner.qual, 'sections collected unconditionally',
            'every formatted section is written to the sample' if okw else
@@ -585,6 +696,5 @@ def check(ctx):
     sanitizer, ok = check_sanitizer(ctx)
     fmt = check_consts(ctx)
     check_lines(ctx, fmt, sanitizer, ok)
-    check_rule_line(ctx, fmt)
     check_json(ctx)
     check_every(ctx)
